@@ -559,6 +559,42 @@ fn run_protocol(ctx: &Ctx) {
             let Ok(tp) = env.f.factory.create_parser(g.top()) else { return };
             let c = Constraint::new(tp);
             constraint_dfs(&env, &c, &CModel { text: vec![], has_mask: false, stopped: false, eos_committed: false, failed: false }, &mut calls, depth_c, &n, &mut out);
+            // replay entry point: Constraint::force_tokens(history) on a fresh constraint for every legal history of
+            // <= 3 tokens (EOS-terminated ones included), then the sampling loop continues from there
+            let mut hists: Vec<(Vec<u32>, Model)> = vec![(vec![], Model { text: vec![], toks: vec![], stopped: false, failed: false })];
+            let mut i = 0;
+            while i < hists.len() && out.is_none() {
+                let (h, md) = hists[i].clone();
+                i += 1;
+                if !h.is_empty() {
+                    let Ok(tp) = env.f.factory.create_parser(g.top()) else { break };
+                    let mut c = Constraint::new(tp);
+                    calls.clear();
+                    calls.push(format!("start_without_prompt, force_tokens({:?})", h));
+                    c.start_without_prompt();
+                    if let Err(e) = c.force_tokens(&h) {
+                        out = Some(pviol(&env, "constraint", "force_tokens_refused", "protocol-error-on-legal-call", &calls, json!({"err": e.to_string()})));
+                        break;
+                    }
+                    let eos_committed = env.eos_all.contains(h.last().unwrap());
+                    ctx.count("force_tokens_histories", 1);
+                    constraint_dfs(&env, &c, &CModel { text: md.text.clone(), has_mask: false, stopped: false, eos_committed, failed: false }, &mut calls, 3, &n, &mut out);
+                }
+                if h.len() < 3 && !md.stopped {
+                    for t in env.legal(&md) {
+                        let mut m2 = md.clone();
+                        m2.toks.push(t);
+                        if env.eos_all.contains(&t) {
+                            m2.stopped = true;
+                        } else {
+                            m2.text.extend_from_slice(&env.vocab.tokens[t as usize]);
+                        }
+                        let mut h2 = h.clone();
+                        h2.push(t);
+                        hists.push((h2, m2));
+                    }
+                }
+            }
         } else {
             let m = env.f.matcher(&g);
             matcher_dfs(&env, &m, &Model { text: vec![], toks: vec![], stopped: false, failed: false }, &mut calls, depth_m, &n, &mut out);
